@@ -22,6 +22,27 @@ type layout struct {
 	comment  bool // a trailing comment on every line
 	blank    bool // blank lines inside blocks and line breaks inside array literals
 	unicode  bool // non-ASCII text in comments
+	clines   bool // lines holding only a comment: after {, between statements, before }
+	indent   bool // lines inside blocks start with blanks and tabs, and end with blanks
+}
+
+// cl is an optional comment-only line.
+func (l *layout) cl() string {
+	if !l.clines {
+		return ""
+	}
+	s := l.ind() + "; only a comment }\n"
+	if l.blank {
+		s += "\n" + s
+	}
+	return s
+}
+
+func (l *layout) ind() string {
+	if l.indent {
+		return " \t "
+	}
+	return ""
 }
 
 func (l *layout) sp() string {
@@ -39,6 +60,9 @@ func (l *layout) nl() string {
 		} else {
 			s = " ; a comment { [ \" ( "
 		}
+	}
+	if l.indent {
+		s += "  "
 	}
 	s += "\n"
 	if l.blank {
@@ -152,11 +176,11 @@ func needsAtomParens(n node.Type) bool {
 // body prints a block position: a one-line statement or a braced multi-statement block.
 func (l *layout) body(n node.Type) string {
 	if b, ok := n.(node.Block); ok {
-		s := "{" + l.nl()
+		s := "{" + l.nl() + l.cl()
 		for _, st := range b.Body {
-			s += l.stmt(st) + l.nl()
+			s += l.ind() + l.stmt(st) + l.nl() + l.cl()
 		}
-		return s + "}"
+		return s + l.ind() + "}"
 	}
 	return l.stmt(n)
 }
@@ -333,13 +357,14 @@ func c07Stmt(d int, inner bool) node.Type {
 
 func c07Layout() *layout {
 	if vrt.Param("layouts", 0) == 1 { // every combination
-		l := &layout{parens: vrt.Bool("lay.parens"), spaces: vrt.Bool("lay.spaces"), comment: vrt.Bool("lay.comment"), blank: vrt.Bool("lay.blank")}
+		l := &layout{parens: vrt.Bool("lay.parens"), spaces: vrt.Bool("lay.spaces"), comment: vrt.Bool("lay.comment"), blank: vrt.Bool("lay.blank"), clines: vrt.Bool("lay.clines"), indent: vrt.Bool("lay.indent")}
 		if l.comment {
 			l.unicode = vrt.Bool("lay.unicode")
 		}
 		return l
 	}
-	presets := [...]layout{{}, {spaces: true}, {parens: true, spaces: true}, {comment: true}, {comment: true, unicode: true, blank: true}, {blank: true, parens: true}}
+	presets := [...]layout{{}, {spaces: true}, {parens: true, spaces: true}, {comment: true}, {comment: true, unicode: true, blank: true}, {blank: true, parens: true},
+		{clines: true}, {clines: true, blank: true, indent: true, spaces: true}, {indent: true, comment: true}}
 	l := presets[vrt.Choice("layout", len(presets))]
 	return &l
 }
